@@ -121,7 +121,15 @@ fn sequential_case(seed: u64, idx: u64) -> CaseOut {
             }
         }
         let mut fraction = f32::NAN;
+        // the call goes through the original handle, a clone, or a handle upgraded from a weak reference
+        let via = rng.below(4);
         let r = catch_unwind(AssertUnwindSafe(|| {
+            let handle = match via {
+                0 => pb.clone(),
+                1 => pb.downgrade().upgrade().expect("upgrade() of a weak handle to a live bar returned None"),
+                _ => pb.clone(),
+            };
+            let pb = &handle;
             match &op {
                 Op::Inc(d) => pb.inc(*d),
                 Op::Dec(d) => pb.dec(*d),
@@ -188,7 +196,19 @@ fn sequential_case(seed: u64, idx: u64) -> CaseOut {
         co.sample = Some(J::obj().with("initial_length", init_len).with("ops", J::Arr(ops.iter().take(12).map(|o| J::from(format!("{o:?}"))).collect())));
     }
     pb.abandon();
+    // once the last strong handle is gone a weak handle must not resurrect the bar
+    let weak = pb.downgrade();
+    let alive_before = weak.upgrade().is_some();
     drop(pb);
+    if !alive_before || weak.upgrade().is_some() {
+        co.verdict = viol(
+            "weak-handle",
+            vec!["weak".into()],
+            format!("WeakProgressBar::upgrade: {} while a handle was alive, {} after the last handle was dropped", if alive_before { "Some" } else { "None" }, if weak.upgrade().is_some() { "Some" } else { "None" }),
+            J::from("weak handle life cycle"),
+            replay,
+        );
+    }
     indicatif::verif_hooks::install(None);
     co
 }
@@ -418,7 +438,7 @@ pub fn run(cfg: &RunCfg) -> PropResult {
     };
     PropResult {
         report,
-        rule: "sequential evaluations: 3-40 operations (inc/dec/set_position/set_length/inc_length/dec_length/unset_length/reset/finish*/abandon/update(set_pos|set_len)/tick, virtual time passing) with boundary-biased u64 arguments on hidden and visible bars, getters and fraction compared with a wrapping/saturating model after every step; concurrent evaluations: 2-16 OS threads x 1-3 clones x 100-100000 inc/dec calls on one bar (hidden, unlimited and 20 Hz spy targets, optional 1 ms steady ticker), conservation of the wrapping sum after join and monotone reads in inc-only runs; 2-8 threads x 100-20000 inc_length/dec_length calls (optionally one unset_length), final length = initial + sum of deltas (or unknown), monotone length reads in inc-only runs; distinct = operation list hash / run parameters".into(),
+        rule: "sequential evaluations: 3-40 operations (inc/dec/set_position/set_length/inc_length/dec_length/unset_length/reset/finish*/abandon/update(set_pos|set_len)/tick, virtual time passing) with boundary-biased u64 arguments on hidden and visible bars, issued through the handle itself, clones and handles upgraded from WeakProgressBar, getters and fraction compared with a wrapping/saturating model after every step; concurrent evaluations: 2-16 OS threads x 1-3 clones x 100-100000 inc/dec calls on one bar (hidden, unlimited and 20 Hz spy targets, optional 1 ms steady ticker), conservation of the wrapping sum after join and monotone reads in inc-only runs; 2-8 threads x 100-20000 inc_length/dec_length calls (optionally one unset_length), final length = initial + sum of deltas (or unknown), monotone length reads in inc-only runs; distinct = operation list hash / run parameters".into(),
         exhaustive: false,
     }
 }
